@@ -162,9 +162,13 @@ def run_driver(chk, mode, jobs, tag, nproc, timeout=7000):
         write_lines(fi, part)
         cmds.append([mode, fi, os.path.join(sc, '%s_out%d.ndjson' % (tag, i)),
                      os.path.join(sc, '%s_work%d' % (tag, i))])
+    # randomly generated probe modules are not worth caching
+    extra = {'HOME': chk.private_home()} if mode in ('probe', 'order') \
+        else None
     with ThreadPoolExecutor(max_workers=max(1, len(cmds))) as ex:
         list(ex.map(lambda c: chk.run_py('checks/c02_driver.py', c,
-                                         timeout=timeout), cmds))
+                                         timeout=timeout, env_extra=extra),
+                    cmds))
     lines = []
     for c in cmds:
         lines += open(c[2]).readlines()
